@@ -294,7 +294,7 @@ def build_cli(ndebug=False):
 SCHED_WRAPS = ["malloc", "free", "calloc", "realloc", "strdup", "strndup", "strlen", "strchr", "strrchr", "strstr", "strspn", "strcspn",
                "strncasecmp", "strcasecmp", "strcmp", "strncmp", "memcpy", "memmove", "memset", "memcmp", "memchr", "strcpy", "strncpy",
                "sprintf", "snprintf", "vsprintf", "vsnprintf", "strcat", "strncat", "stpcpy", "strtok_r", "strsep",
-               "idn2_to_ascii_8z", "strtok", "strerror", "rand", "srand", "setlocale", "getenv", "setenv", "unsetenv", "putenv", "clearenv", "abort", "__assert_fail", "atexit", "on_exit", "pthread_self", "hcreate", "hsearch", "hdestroy", "localtime", "gmtime", "asctime", "ctime", "random", "srandom", "drand48", "lrand48",
+               "idn2_to_ascii_8z", "strtok", "strerror", "rand", "srand", "setlocale", "getenv", "setenv", "unsetenv", "putenv", "clearenv", "abort", "__assert_fail", "atexit", "on_exit", "pthread_self", "pthread_getattr_np", "hcreate", "hsearch", "hdestroy", "localtime", "gmtime", "asctime", "ctime", "random", "srandom", "drand48", "lrand48",
                "pthread_mutex_lock", "pthread_mutex_trylock", "pthread_mutex_unlock", "pthread_mutex_init", "pthread_mutex_destroy",
                "pthread_rwlock_rdlock", "pthread_rwlock_wrlock", "pthread_rwlock_unlock", "pthread_once", "sched_yield"]
 
